@@ -23,7 +23,10 @@
       driver (`asciiFns`), opaque in the proofs;
     * scalar fields are `Integer` fields; `Set[...]` is treated like `Array[...]` (the harness compares
       sets order-insensitively).
-  Out of the model (documented limits of C07): FunctionCall / Constant mapper values, Map values.
+  Also modelled: `_deserialization_mapper` (`CInfo.des`), `_additional_properties = False` own / inherited and
+  `keep_undefined` (`deserK`), several bases (Sem/MapperMro.lean), structures stored as Map values (`Fld.mapped`,
+  `serC`), the cache with nested-class entries (`cAggregate`).
+  Out of the model (documented limits of C07): FunctionCall / Constant mapper values, non-Integer scalars, compact wrappers.
 -/
 namespace Typedpy.Mappers
 
